@@ -112,14 +112,14 @@ Proof.
     + cbn in Hinv; bools; discriminate.
     + destruct os; dchan rq; cbn in Hinv; bools; subst; try discriminate; fin.
     + destruct os; dchan cl; cbn in Hinv; bools; subst; try discriminate; fin.
-    + destruct rq as [[[] ? ? ?]|], cl as [[[] ? ? ?]|]; cbn in Hinv; bools; subst; fin.
+    + destruct rq as [[[] ? ? ?]|], cl as [[[] ? ? ?]|]; destruct hs, hc, ho, hdn; cbn in Hinv; try discriminate Hinv; fin0.
   - destruct ph as [|rq|rq cl|rq cl].
     + destruct os; cbn in Hinv; bools; subst; try discriminate; destruct k; fin.
     + destruct os; dchan rq; cbn in Hinv; bools; subst; try discriminate;
         try (destruct (class_start k id r) eqn:Hc; try discriminate); cbn; rewrite ?Hc; fin.
     + destruct os; dchan cl; cbn in Hinv; bools; subst; try discriminate;
         try (destruct (class_clear id r) eqn:Hc; try discriminate); cbn; rewrite ?Hc; fin.
-    + destruct rq as [[[] ? ? ?]|], cl as [[[] ? ? ?]|]; cbn in Hinv; bools; subst; fin.
+    + destruct rq as [[[] ? ? ?]|], cl as [[[] ? ? ?]|]; destruct hs, hc, ho, hdn; cbn in Hinv; try discriminate Hinv; fin0.
 Qed.
 
 (* ------------------------------------------------------------------ *)
@@ -139,38 +139,38 @@ Proof.
     + destruct os; dchan rq; cbn in Hinv; bools; subst; try discriminate;
         destruct (class_start k id r) eqn:Hc; cbn; rewrite ?Hc; destruct wk; fin.
     + destruct os; dchan cl; cbn in Hinv; bools; subst; try discriminate; destruct rq as [tx b rx w]; destruct tx, rx, w; destruct wk; fin.
-    + destruct rq as [rq|]; [dchan rq|]; destruct cl as [[[] ? ? ?]|]; cbn in Hinv; bools; subst; destruct wk; fin.
+    + destruct rq as [rq|]; [dchan rq|]; destruct cl as [[[] ? ? ?]|]; destruct hs, hc, ho, hdn; cbn in Hinv; try discriminate Hinv; try (destruct (class_start k id r) eqn:Hc); destruct wk; fin0.
   - (* IDropReq *)
     destruct ph as [|rq|rq cl|rq cl].
     + destruct os; cbn in Hinv; bools; subst; try discriminate; destruct wk; fin.
     + destruct os; dchan rq; cbn in Hinv; bools; subst; try discriminate; destruct wk; fin.
     + destruct os; dchan cl; cbn in Hinv; bools; subst; try discriminate; destruct rq as [tx b rx w]; destruct tx, rx, w; destruct wk; fin.
-    + destruct rq as [rq|]; [dchan rq|]; destruct cl as [[[] ? ? ?]|]; cbn in Hinv; bools; subst; destruct wk; fin.
+    + destruct rq as [rq|]; [dchan rq|]; destruct cl as [[[] ? ? ?]|]; destruct hs, hc, ho, hdn; cbn in Hinv; try discriminate Hinv; try (destruct (class_start k id r) eqn:Hc); destruct wk; fin0.
   - (* IClear *)
     destruct ph as [|rq|rq cl|rq cl].
     + destruct os; cbn in Hinv; bools; subst; try discriminate; destruct wk; fin.
     + destruct os; dchan rq; cbn in Hinv; bools; subst; try discriminate; destruct wk; fin.
     + destruct os; dchan cl; cbn in Hinv; bools; subst; try discriminate; destruct wk; fin.
-    + destruct os, rq as [[[] ? ? ?]|], cl as [[[] ? ? ?]|]; cbn in Hinv; bools; subst; fin.
+    + destruct os as [[]| |], rq as [[[] ? ? ?]|], cl as [[[] ? ? ?]|]; destruct hs, hc, ho, hdn; cbn in Hinv; try discriminate Hinv; fin0.
   - (* IDropHandle *)
     destruct ph as [|rq|rq cl|rq cl].
     + destruct os; cbn in Hinv; bools; subst; try discriminate; destruct wk; fin.
     + destruct os; dchan rq; cbn in Hinv; bools; subst; try discriminate; destruct wk; fin.
     + destruct os; dchan cl; cbn in Hinv; bools; subst; try discriminate; destruct wk; fin.
-    + destruct os, rq as [[[] ? ? ?]|], cl as [[[] ? ? ?]|]; cbn in Hinv; bools; subst; fin.
+    + destruct os as [[]| |], rq as [[[] ? ? ?]|], cl as [[[] ? ? ?]|]; destruct hs, hc, ho, hdn; cbn in Hinv; try discriminate Hinv; fin0.
   - (* IAnsClr *)
     destruct ph as [|rq|rq cl|rq cl].
     + destruct os; cbn in Hinv; bools; subst; try discriminate; destruct wk; fin.
     + destruct os; dchan rq; cbn in Hinv; bools; subst; try discriminate; destruct wk; fin.
     + destruct os; dchan cl; cbn in Hinv; bools; subst; try discriminate;
         destruct (class_clear id r) eqn:Hc; cbn; rewrite ?Hc; destruct wk; fin.
-    + destruct cl as [cl|]; [dchan cl|]; destruct rq as [[[] ? ? ?]|]; cbn in Hinv; bools; subst; destruct wk; fin.
+    + destruct cl as [cl|]; [dchan cl|]; destruct rq as [[[] ? ? ?]|]; destruct hs, hc, ho, hdn; cbn in Hinv; try discriminate Hinv; try (destruct (class_clear id r) eqn:Hc); destruct wk; fin0.
   - (* IDropClr *)
     destruct ph as [|rq|rq cl|rq cl].
     + destruct os; cbn in Hinv; bools; subst; try discriminate; destruct wk; fin.
     + destruct os; dchan rq; cbn in Hinv; bools; subst; try discriminate; destruct wk; fin.
     + destruct os; dchan cl; cbn in Hinv; bools; subst; try discriminate; destruct wk; fin.
-    + destruct cl as [cl|]; [dchan cl|]; destruct rq as [[[] ? ? ?]|]; cbn in Hinv; bools; subst; destruct wk; fin.
+    + destruct cl as [cl|]; [dchan cl|]; destruct rq as [[[] ? ? ?]|]; destruct hs, hc, ho, hdn; cbn in Hinv; try discriminate Hinv; try (destruct (class_clear id r) eqn:Hc); destruct wk; fin0.
 Qed.
 
 (* ------------------------------------------------------------------ *)
